@@ -422,7 +422,7 @@ func TestVerifC18(t *testing.T) {
 	defer os.RemoveAll(root)
 	c18Tree(root)
 	maxFrames := r.Pick(2, 3)
-	r.Set("rule", fmt.Sprintf("a fixed scratch tree (Go root, 3 GOPATHs with src and pkg/mod trees, 2 go.mod modules at depth 1 and 3, a bare go-run file); full product of the configuration (Go root configured or not x 6 GOPATH lists x every subset of {goroot, gp1, gp2} renamed on the remote side) x every sequence of <= %d frames from %d frame kinds (present/absent files under each root, the go-test main, paths under no root, paths whose tail exists locally but that lack the src component, a remote GOPATH path outside src, a sibling directory whose name extends a module directory); ground truth (class, local path, relative path, import path, detected roots) from the layout. non-trivial = at least one frame under a configured root; distinct = (configuration, frames)", maxFrames, len(c18Kinds)))
+	r.Set("rule", fmt.Sprintf("a fixed scratch tree (Go root, 3 GOPATHs with src and pkg/mod trees, 3 go.mod modules (two siblings at depth 1, one of whose names extends the other's, and one at depth 3), a bare go-run file); full product of the configuration (Go root configured or not x 6 GOPATH lists x every subset of {goroot, gp1, gp2} renamed on the remote side) x every sequence of <= %d frames from %d frame kinds (present/absent files under each root, the go-test main, paths under no root, paths whose tail exists locally but that lack the src component, a remote GOPATH path outside src, a sibling directory whose name extends a module directory); ground truth (class, local path, relative path, import path, detected roots) from the layout. non-trivial = at least one frame under a configured root; distinct = (configuration, frames)", maxFrames, len(c18Kinds)))
 	r.Set("assumptions", []string{"ambiguous layouts are excluded: the same relative path under two roots, and a module nested in another module (exercised for determinism in C06)", "for a frame whose file is absent locally only the general invariants are demanded unless it lies under no detected root", "the import path of a module-cache frame is not checked (the statement does not say whether it carries the version)"})
 	if rv := r.ReplayFile(); rv != nil {
 		t.Logf("replay %s: %s\ninput:\n%s", rv.Key, rv.Summary, rv.Input())
